@@ -626,13 +626,20 @@ func setFromParamVal(buf []byte, pf *PFromBody) ErrorHdr {
 			pf.Tag.Set(pf.vstart, pf.vend)
 		} else if ((pf.pend - pf.pstart) == len(expires)) &&
 			bytescase.CmpEq(buf[pf.pstart:pf.pend], expires[:]) {
-			pf.HasExpires = true
 			exp, e := pUInt64Val(buf[pf.vstart:pf.vend])
-			if exp < uint64(^uint32(0)) {
-				pf.Expires = uint32(exp)
+			if e == 0 {
+				pf.HasExpires = true
+				if exp < uint64(^uint32(0)) {
+					pf.Expires = uint32(exp)
+				} else {
+					// truncate to max. uint32 (rfc3261)
+					pf.Expires = ^uint32(0)
+				}
 			} else {
-				// truncate to max. uint32 (rfc3261)
-				pf.Expires = ^uint32(0)
+				// not a number: no expires value is reported (and not
+				// the digits in front of the offending char)
+				pf.ParamErr = e
+				pf.ErrOffs = OffsT(pf.vstart)
 			}
 			// in REGISTER if value is not parsable the default is 3600
 			// however this won't be good for replies
